@@ -591,9 +591,13 @@ func runBatch(c *combo, items func(i int) (item, bool), single int) {
 // ---------------------------------------------------------------------------
 
 // gateOrder: see phase 4 in main.
-func gateOrder(c *combo, names []nameT, shapes []shape, verd [][6]ref.ValVerdict) {
+func gateOrder(c *combo, names []nameT, shapes []shape, verd [][6]ref.ValVerdict, orderOn bool) {
 	config := cfg.NewConfig()
-	if _, err := toml.Decode(c.toml(), &config); err != nil {
+	doc := c.toml()
+	if orderOn {
+		doc = strings.Replace(doc, "validate_order = false", "validate_order = true", 1)
+	}
+	if _, err := toml.Decode(doc, &config); err != nil {
 		panic(err)
 	}
 	tc, err := config.TableConfig()
@@ -601,11 +605,40 @@ func gateOrder(c *combo, names []nameT, shapes []shape, verd [][6]ref.ValVerdict
 		panic(err)
 	}
 	t := table.New(tc)
-	all := matcher.Matcher{}
-	t.AddBlacklist(&all)
+	if !orderOn {
+		all := matcher.Matcher{}
+		t.AddBlacklist(&all)
+	}
 	route := harn.NewCapture("all", matcher.Matcher{})
 	t.AddRoute(route)
 	check := func(line []byte, jl ref.ValLineVerdict) {
+		if orderOn {
+			// order validation is a later, optional stage: a line that fails validation is counted invalid
+			// (never out-of-order); a valid line is forwarded or, when its name was seen with this
+			// timestamp before, counted out-of-order
+			in0, inv0, ooo0, oth0 := cIn.Count(), cInvalid.Count(), cOOO.Count(), cBlack.Count()+cUnroutable.Count()
+			n0 := len(route.Lines)
+			var pan interface{}
+			func() {
+				defer func() { pan = recover() }()
+				t.Dispatch(append([]byte(nil), line...))
+			}()
+			dIn, dInv, dOOO, dOth := cIn.Count()-in0, cInvalid.Count()-inv0, cOOO.Count()-ooo0, cBlack.Count()+cUnroutable.Count()-oth0
+			fwd := int64(len(route.Lines) - n0)
+			st.evals++
+			st.gateOrder++
+			switch {
+			case pan != nil:
+				fail("panic", c, line, fmt.Sprintf("Table.Dispatch panicked on a table with validate_order = true: %v", pan))
+			case dIn != 1 || dOth != 0 || dInv+dOOO+fwd != 1:
+				fail("order-counters", c, line, fmt.Sprintf("validate_order = true: in %+d invalid %+d out_of_order %+d forwarded %d other %+d; exactly one of invalid / out_of_order / forwarded must account for the line", dIn, dInv, dOOO, fwd, dOth))
+			case jl.Claimed && !jl.Valid && dInv != 1:
+				fail("invalid-counted-out-of-order", c, line, fmt.Sprintf("invalid (%s) but not counted invalid on a table with validate_order = true (out_of_order %+d, forwarded %d)", jl.Reason, dOOO, fwd))
+			case jl.Claimed && jl.Valid && dInv != 0:
+				fail("valid-counted-invalid", c, line, "valid at the configured levels but counted invalid on a table with validate_order = true")
+			}
+			return
+		}
 		in0, inv0, bl0, oth0 := cIn.Count(), cInvalid.Count(), cBlack.Count(), cOOO.Count()+cUnroutable.Count()
 		n0 := len(route.Lines)
 		var pan interface{}
@@ -816,7 +849,8 @@ phases:
 	// the names up to tokFull tokens, plus the lines without a name part.
 	if exhaustive {
 		for _, c := range combos[:6] {
-			gateOrder(c, names[:nFull], mshapes, verd)
+			gateOrder(c, names[:nFull], mshapes, verd, false)
+			gateOrder(c, names[:nFull], mshapes, verd, true)
 		}
 	}
 	// Probes: what the relay does with representative names of the open
